@@ -36,8 +36,8 @@ ASSUMPTIONS = [
     "provider refresh is judged in virtual time supplied through the provider's `timer`",
 ]
 MIN_EVALUATIONS = {"quick": 300, "thorough": 5000}
-MIN_NONTRIVIAL = {"quick": 150, "thorough": 1200}
-REACH_FLOORS = {"requests_checked": 1500, "provider_histories": 200, "provider_contended_histories": 100, "engine_runs": 16, "probe_requests_seen": 3}
+MIN_NONTRIVIAL = {"quick": 100, "thorough": 600}
+REACH_FLOORS = {"requests_checked": 1000, "provider_histories": 200, "provider_contended_histories": 100, "engine_runs": 16, "probe_requests_seen": 3}
 SHARD_TIMEOUT = {"quick": 900, "thorough": 5400}
 
 CASE_ID_HEADER = "x-schemathesis-testcaseid"
